@@ -29,6 +29,7 @@ use super::{
 /// This process works in the following way:
 /// 1. Block execution containing rollup data: each rollup blob contains a sequencer block hash that
 ///    is matched against `verified_blocks`
+///    - If the rollup blob's rollup ID is not `rollup_id`, then the rollup blob is dropped.
 ///    - The rollup blob's rollup ID, transactions, and proof area used to reconstruct a Merkle Tree
 ///      Hash, which must match the root stored in the Sequencer header blob. If it does, a block is
 ///      reconstructed from the information stored in the header and rollup blobs. The sequencer
@@ -50,6 +51,17 @@ pub(super) fn reconstruct_blocks_from_verified_blobs(
 
     // match rollup blobs to header blobs
     for rollup in rollup_blobs {
+        // A rollup blob of another rollup in the same Sequencer block also passes the Merkle audit
+        // against the header blob below, and so must be rejected here.
+        if rollup.rollup_id() != rollup_id {
+            warn!(
+                block_hash = %rollup.sequencer_block_hash(),
+                target_rollup_id = %rollup_id,
+                rollup_id_in_blob = %rollup.rollup_id(),
+                "rollup blob does not contain the target rollup ID; dropping it",
+            );
+            continue;
+        }
         if let Some(header_blob) =
             remove_header_blob_matching_rollup_blob(&mut header_blobs, &rollup)
         {
